@@ -3,7 +3,7 @@
 From Coq Require Import ZArith List Bool Arith Lia.
 Import ListNotations.
 From GV Require Import Common.Wire C03.Model.
-From GV Require C03.GenEquiv C03.GenManager C03.GenLinks.
+From GV Require C03.GenEquiv C03.GenManager C03.GenLinks C03.GenClosed.
 From GV Require Export C03.Lemmas1 C03.Lemmas2 C03.Lemmas3 C03.Lemmas4.
 Open Scope nat_scope.
 
@@ -463,3 +463,7 @@ Definition gen_update_is_recompute := GenManager.gen_update_is_recompute.
 Definition gen_links_spec := GenLinks.gen_links_spec.
 Definition gen_inverse_links_spec := GenLinks.gen_inverse_links_spec.
 Definition gen_links_in_force_spec := GenLinks.gen_links_in_force_spec.
+(* round 6: the translated set of links in force at the model's types = all_links (same elements); the update loop closed over it *)
+Definition links_paired_reachable := GenClosed.links_paired_reachable.
+Definition gen_links_in_force_is_all_links := GenClosed.gen_links_in_force_is_all_links.
+Definition gen_update_is_recompute_closed := GenClosed.gen_update_is_recompute_closed.
